@@ -25,6 +25,12 @@ func verifPar(fs ...func()) {
 }
 
 func VH_C19_replaycache() {
+	for rep := 0; rep < verifRepeat(150); rep++ {
+		verifBody_C19_replaycache()
+	}
+}
+
+func verifBody_C19_replaycache() {
 	verifRaceDetect(true)
 	verifSched(1)
 	c := NewReplayCache(2)
@@ -38,6 +44,12 @@ func VH_C19_replaycache() {
 }
 
 func VH_C19_cipherlist() {
+	for rep := 0; rep < verifRepeat(150); rep++ {
+		verifBody_C19_cipherlist()
+	}
+}
+
+func verifBody_C19_cipherlist() {
 	verifRaceDetect(true)
 	verifSched(1)
 	cl, _, _ := verifMakeList(2, 2, false)
@@ -60,6 +72,12 @@ func VH_C19_cipherlist() {
 }
 
 func VH_C19_natmap() {
+	for rep := 0; rep < verifRepeat(150); rep++ {
+		verifBody_C19_natmap()
+	}
+}
+
+func verifBody_C19_natmap() {
 	verifRaceDetect(true)
 	verifSched(1)
 	nm := newNATmap(time.Minute, &verifUDPMetrics{}, noopLogger())
@@ -78,6 +96,12 @@ func VH_C19_natmap() {
 
 // the handler goroutine writes through a natconn while its reader goroutine reads
 func VH_C19_natconn() {
+	for rep := 0; rep < verifRepeat(150); rep++ {
+		verifBody_C19_natconn()
+	}
+}
+
+func verifBody_C19_natconn() {
 	verifRaceDetect(true)
 	verifSched(1)
 	pc := &verifPacketConn{}
@@ -91,6 +115,12 @@ func VH_C19_natconn() {
 }
 
 func VH_C19_listeners_packet() {
+	for rep := 0; rep < verifRepeat(150); rep++ {
+		verifBody_C19_listeners_packet()
+	}
+}
+
+func verifBody_C19_listeners_packet() {
 	verifRaceDetect(true)
 	verifSched(1)
 	delete(verifBoundPC, "127.0.0.1:9000")
@@ -110,6 +140,12 @@ func VH_C19_listeners_packet() {
 }
 
 func VH_C19_listeners_stream() {
+	for rep := 0; rep < verifRepeat(150); rep++ {
+		verifBody_C19_listeners_stream()
+	}
+}
+
+func verifBody_C19_listeners_stream() {
 	verifRaceDetect(true)
 	verifSched(1)
 	ms := NewMultiStreamListener("127.0.0.1:0", nil)
